@@ -94,7 +94,8 @@ type Sim struct {
 	kick      chan struct{}
 	last      *Task
 	shutdown  atomic.Bool
-	rootGid   uint64 // the goroutine that created the Sim and runs the scheduler: it never parks
+	abandoned atomic.Bool // Run ended in a deadlock: Shutdown and Drain leave the parked tasks alone
+	rootGid   uint64      // the goroutine that created the Sim and runs the scheduler: it never parks
 	hash      uint64
 	start     time.Time
 
@@ -453,6 +454,10 @@ func (s *Sim) Run() error {
 			}
 			if !nonDaemonEnabled {
 				s.mu.Unlock()
+				// the tasks stay where they are: releasing one that waits for a lock whose holder is
+				// blocked for good would move it from a yield point into a real mutex wait, which the
+				// bubble cannot tell from running code (synctest.Wait would never return)
+				s.abandoned.Store(true)
 				return fmt.Errorf("%w; waiting: %v", ErrDeadlock, blocked)
 			}
 		}
@@ -555,6 +560,9 @@ func (s *Sim) Run() error {
 // goroutines can run to completion before the bubble ends. Nothing is judged afterwards.
 func (s *Sim) Shutdown() {
 	s.shutdown.Store(true)
+	if s.abandoned.Load() {
+		return
+	}
 	s.mu.Lock()
 	for _, t := range append(append([]*Task(nil), s.tasks...), s.pending...) {
 		if t.state == stParked {
@@ -570,6 +578,9 @@ func (s *Sim) Shutdown() {
 
 // Drain waits (in fake time) for leftover goroutines after Shutdown.
 func (s *Sim) Drain(rounds int, step time.Duration) {
+	if s.abandoned.Load() {
+		return
+	}
 	for i := 0; i < rounds; i++ {
 		synctest.Wait()
 		time.Sleep(step)
